@@ -393,12 +393,14 @@ type world struct {
 	calls   int
 	reruns  int
 
-	rawSeen  map[string]bool
-	statsOn  bool      // this run's IDs count towards the process-wide spread statistics
-	base     io.Reader // crypto/rand.Reader outside the run
-	gseed    uint64    // seed of the library-internal source for this run
-	seedCtr  uint64
-	internal map[string]int // loc.field → times confirmed as library-internal randomness in this run
+	rawSeen   map[string]bool
+	idRelaxed bool      // the last explainID left the ID to the necessary conditions (no seam bytes for it in the call)
+	mgrNoSeam []uint32  // such IDs of the persistent manager, in order
+	statsOn   bool      // this run's IDs count towards the process-wide spread statistics
+	base      io.Reader // crypto/rand.Reader outside the run
+	gseed     uint64    // seed of the library-internal source for this run
+	seedCtr   uint64
+	internal  map[string]int // loc.field → times confirmed as library-internal randomness in this run
 }
 
 func (w *world) catch(where string) {
@@ -948,6 +950,25 @@ func newKeyVia(e catalog.Entry) (uint32, key.Key, error) {
 	return id, ent.Key(), nil
 }
 
+// onlyMaterial: the call drew no seam bytes, or every byte it drew is the
+// key's own material (for a key without secret accessors — opaque legacy key
+// data — at most the one request that fetched that material).
+func onlyMaterial(wn win, k key.Key) bool {
+	if len(wn.reqs) == 0 {
+		return true
+	}
+	var secrets []secretField
+	secretsOf(k, "", 0, &secrets)
+	if len(secrets) == 0 {
+		return len(wn.reqs) == 1
+	}
+	n := 0
+	for _, s := range secrets {
+		n += len(s.data)
+	}
+	return n >= len(wn.data) && copiedDisjoint(wn.data, secrets)
+}
+
 // idIs: the ID is the 32-bit value of the four issued bytes, in either byte order.
 func idIs(id uint32, b []byte) bool {
 	return binary.BigEndian.Uint32(b) == id || binary.LittleEndian.Uint32(b) == id
@@ -1100,7 +1121,7 @@ func (w *world) genKey(e catalog.Entry) key.Key {
 	idOff, idEnd, idOK := w.explainID(wn, id, func() (uint32, bool) {
 		id2, k2, err2 := newKeyVia(e)
 		return id2, err2 == nil && k2 != nil
-	})
+	}, func() bool { return onlyMaterial(wn, k) })
 	if !idOK {
 		return nil
 	}
@@ -1287,7 +1308,7 @@ func (w *world) wrap(ks *keyState) *keyset.Handle {
 		if _, _, ok := w.explainID(wn, id, func() (uint32, bool) {
 			id2, err2 := keyset.NewManager().AddKeyWithOpts(ks.k, internalapi.Token{}, keyset.AsPrimary())
 			return id2, err2 == nil
-		}); !ok {
+		}, func() bool { return len(wn.reqs) == 0 }); !ok {
 			return h
 		}
 		w.noteID(id)
@@ -1604,9 +1625,28 @@ func (w *world) mgrAdd() {
 		idFrom, idTo, fine = w.explainID(wn, id, func() (uint32, bool) {
 			id2, k2, err2 := scratch() // the same ID draw on a scratch manager
 			return id2, err2 == nil && k2 != nil
+		}, func() bool {
+			hh, herr := w.mgr.Handle()
+			if herr != nil && len(w.mgrIDs) > 0 {
+				return false
+			}
+			if herr != nil { // first key, no primary yet: look at it after making it primary
+				if w.mgr.SetPrimary(id) != nil {
+					return false
+				}
+				w.mgrPrim = id
+				if hh, herr = w.mgr.Handle(); herr != nil {
+					return false
+				}
+			}
+			ent, eerr := hh.Entry(hh.Len() - 1)
+			return eerr == nil && ent.KeyID() == id && onlyMaterial(wn, ent.Key())
 		})
 		if !fine {
 			return
+		}
+		if w.idRelaxed {
+			w.noSeamIDs(id)
 		}
 		off = idTo
 	}
